@@ -414,3 +414,52 @@ Proof.
   intros Hm Hb. destruct (q_simulates ops pops Idle [] Hm) as (H1 & _ & H3). rewrite H1, H3.
   exact (C05_history_fifo pops Hb).
 Qed.
+(* ---- histories in which an iterator is kept alive across other calls ---- *)
+Definition iop_bytes (o : iop) : list Z := match o with IOp o' => pop_bytes o' | _ => [] end.
+Definition ifed (ops : list iop) : list Z := flat_map iop_bytes ops.
+
+Theorem i_conservation : forall ops s, st_wf (p_tok (i_p s)) -> Forall byte (ifed ops) ->
+  exists ms, sequence (map dec (snd (feed (p_tok (i_p s)) (ifed ops)))) = Ok ms /\
+    p_q (i_p s) ++ ms = retrieved (snd (i_run s ops)) ++ p_q (i_p (fst (i_run s ops))).
+Proof.
+  induction ops as [|o r IH]; intros s Hs Hb.
+  - exists []. cbn. now rewrite app_nil_r.
+  - unfold ifed in Hb. cbn [flat_map] in Hb. apply Forall_app in Hb as [Hb1 Hbr]. fold (ifed r) in Hbr.
+    destruct o as [o'| |].
+    + (* an ordinary operation *)
+      assert (Hb1' : Forall byte (fed [o'])) by (unfold fed; cbn [flat_map]; rewrite app_nil_r; exact Hb1).
+      destruct (run_conservation [o'] (i_p s) Hs Hb1') as (ms1 & Hm1 & Ht1 & Hq1).
+      cbn [p_run] in Ht1, Hq1. destruct (p_step (i_p s) o') as [p1 ob] eqn:Ep. cbn [fst snd] in Ht1, Hq1.
+      unfold fed in Hm1, Ht1. cbn [flat_map] in Hm1, Ht1. rewrite app_nil_r in Hm1, Ht1.
+      cbn [retrieved flat_map] in Hq1. rewrite app_nil_r in Hq1.
+      assert (Hs1 : st_wf (p_tok p1)).
+      { rewrite Ht1. destruct (feed_msgs (p_tok (i_p s)) (pop_bytes o') Hs Hb1) as (_ & _ & _ & _ & Hw). exact Hw. }
+      specialize (IH {| i_p := p1; i_it := i_it s |} Hs1 Hbr). cbn [i_p] in IH. destruct IH as (ms2 & Hm2 & Hq2).
+      cbn [i_run i_step]. rewrite Ep. destruct (i_run {| i_p := p1; i_it := i_it s |} r) as [s2 obs2]. cbn [fst snd] in *.
+      unfold ifed. cbn [flat_map iop_bytes]. fold (ifed r). rewrite feed_app.
+      destruct (feed (p_tok (i_p s)) (pop_bytes o')) as [t1 o1]. cbn [fst snd] in *. subst t1.
+      destruct (feed (p_tok p1) (ifed r)) as [t2 o2]. cbn [fst snd] in *.
+      exists (ms1 ++ ms2). rewrite map_app. split; [now apply sequence_app|].
+      cbn [retrieved flat_map]. fold (retrieved obs2). rewrite app_assoc, Hq1, <- app_assoc, Hq2. now rewrite app_assoc.
+    + (* a new iterator *)
+      specialize (IH {| i_p := i_p s; i_it := Some true |} Hs Hbr). cbn [i_p] in IH. destruct IH as (ms & Hm & Hq).
+      cbn [i_run i_step]. destruct (i_run _ r) as [s2 obs2]. cbn [fst snd] in *. exists ms. unfold ifed. cbn [flat_map iop_bytes app]. fold (ifed r). auto.
+    + (* next(it) *)
+      cbn [i_run i_step]. unfold ifed. cbn [flat_map iop_bytes app]. fold (ifed r).
+      destruct (i_it s) as [[|]|] eqn:Ei.
+      * destruct (p_q (i_p s)) as [|m q] eqn:Eq.
+        -- specialize (IH {| i_p := i_p s; i_it := Some false |} Hs Hbr). cbn [i_p] in IH. destruct IH as (ms & Hm & Hq).
+           destruct (i_run _ r) as [s2 obs2]. cbn [fst snd] in *. exists ms. rewrite Eq in Hq. auto.
+        -- specialize (IH {| i_p := {| p_tok := p_tok (i_p s); p_q := q |}; i_it := Some true |} Hs Hbr). cbn [i_p p_tok p_q] in IH. destruct IH as (ms & Hm & Hq).
+           destruct (i_run _ r) as [s2 obs2]. cbn [fst snd] in *. exists ms. split; [exact Hm|]. cbn [retrieved flat_map obs_msgs app]. fold (retrieved obs2). cbn [app]. now rewrite Hq.
+      * specialize (IH s Hs Hbr). destruct IH as (ms & Hm & Hq). destruct (i_run s r) as [s2 obs2]. cbn [fst snd] in *. exists ms. auto.
+      * specialize (IH s Hs Hbr). destruct IH as (ms & Hm & Hq). destruct (i_run s r) as [s2 obs2]. cbn [fst snd] in *. exists ms. auto.
+Qed.
+
+(* with one iterator kept alive across feeds, get_message calls and other iterations, in ANY history: what was retrieved plus what is
+   still queued is exactly parse_all of everything fed - the live iterator neither loses, duplicates nor reorders anything *)
+Theorem live_iterator_fifo ops : Forall byte (ifed ops) ->
+  exists ms, parse_all (ifed ops) = Ok ms /\ ms = retrieved (snd (i_run i_init ops)) ++ p_q (i_p (fst (i_run i_init ops))).
+Proof.
+  intros Hb. destruct (i_conservation ops i_init I Hb) as (ms & H1 & H2). exists ms. split; [exact H1|exact H2].
+Qed.
